@@ -2,21 +2,25 @@
 
 package regprocessor
 
-// Correspondence + property oracle for C13: real bidirectional requests (v4 / v6 / dual stack / error
-// exits) and real ReloadSubnets calls on a real RegProcessor (no zmq socket: fake sender), interleaved
-// at the points between the address selections.
+// Correspondence + property oracle for C13: real registrations (RegisterBidirectional: v4 / v6 / dual
+// stack / error exits / a failing zmq send; RegisterUnidirectional) and real ReloadSubnets calls on a
+// real RegProcessor (no zmq socket: fake sender), interleaved at the points between the address
+// selections.
 //
 // Deterministic part: the initial selector (version 0) is gate-controlled - every Select call on it
 // parks the request until the harness releases it. The harness issues events (start thread i, release
 // thread i) and waits after each one until the processor is *settled*: every started goroutine is
-// finished, parked at the gate, or blocked in selectorMutex (read from one stop-the-world goroutine
-// dump, so there is no timing in the verdict). The same event list is a line for the Lean model, which
-// runs the lock programs extracted from the source (CJ/Gen/LockPrograms.lean).
-// Stress part: ungated requests against concurrent reloads.
+// finished, parked at the gate, or blocked in selectorMutex / zmqMutex (read from one stop-the-world
+// goroutine dump, so there is no timing in the verdict). The same event list is a line for the Lean
+// model, which runs the lock programs extracted from the source (CJ/Gen/LockPrograms.lean); a thread is
+// described to the model by the shape of its path (entry point, selections performed, kind of exit),
+// not by a path name.
+// Stress part: ungated requests against concurrent reloads; in the thorough tier and in the targeted
+// search also continuous stress (requests keep going against 1500 back-to-back reloads).
 //
 // Oracle (independent of the model): after all gates are released every request and every reload has
-// completed (a started goroutine blocked in selectorMutex with nothing left to run is a deadlock), and
-// the addresses of one response come from one version of the subnet file.
+// completed (a started goroutine blocked in a lock of the processor with nothing left to run is a
+// deadlock), and the addresses of one response come from one version of the subnet file.
 
 import (
 	"bufio"
@@ -1215,7 +1219,7 @@ func TestVerifC13(t *testing.T) {
 	// goroutine waits for a lock of the processor), never a wall-clock bound.
 	cont := 0
 	if vlib.Tier() == "thorough" {
-		cont = 6
+		cont = 10
 	}
 	if os.Getenv("VERIF_SEARCH") == "1" {
 		cont = 12
@@ -1228,7 +1232,7 @@ func TestVerifC13(t *testing.T) {
 		}
 		c13StressContinuous = false
 	}
-	if os.Getenv("VERIF_SEARCH") == "1" {
+	{
 		// what the model says about the extracted programs: a fine-grained deadlocking schedule, if there is one
 		for _, set := range [][]string{{"q:46:ok", "r:ok"}, {"q:4:ok", "r:ok"}, {"q:46:sel", "r:ok"}, {"q:4:sel", "r:ok"}, {"q:46:late", "r:ok"}} {
 			if ans, ok := c13AskDriver("rwsched", set); ok && strings.HasPrefix(ans, "deadlock:") {
